@@ -35,6 +35,9 @@ def _alarm(signum, frame):
 
 def run_scenario(prop, scenario) -> dict:
     """Execute one scenario; return a picklable, JSON-able summary."""
+    from . import bootstrap
+
+    bootstrap.reset_process_state()
     sim = prop.execute(scenario)
     viol = [dict(v) for v in sim.violations]
     states = prop.abstract(scenario, sim) if hasattr(prop, "abstract") else sim.states
